@@ -45,6 +45,14 @@ Theorem C13_today_window :
 Proof. exact (proj2 unsafe_today_refuted). Qed.
 Print Assumptions C13_today_window.
 
+(* a signal inside finalise, after j >= 1 of the remaining live points have been recorded: for EVERY
+   consistent state the resumed run (finalise runs again) records a point twice - the second
+   unsafe window of the standard sampler (known finding D2b)                                      *)
+Theorem C13_finalise_refuted : forall n s j,
+  Inv n s -> (1 <= j)%nat -> final_ok_b n (resume_finalise j s) = false.
+Proof. exact finalise_refuted. Qed.
+Print Assumptions C13_finalise_refuted.
+
 (* the handler: for every statement list accepted by the checker (one forced checkpoint that reaches
    the dump, then exit with the configured code; closing the pool before or after it; logging
    anywhere) exactly one checkpoint of the CURRENT state is written and the process exits with the
